@@ -88,10 +88,25 @@ def _mixins_loops(m):
     ]
 
 
+def _mechanism_or_violation(ctx, getter, construct, text, detail):
+    """An anchor that vanished because the mechanism itself was deleted is a violation of the rule that needs it,
+    not an analysis error."""
+    try:
+        return getter(ctx.repo)
+    except AnalysisError as e:
+        if "found 0" not in str(e):
+            raise
+        oc = A.function_class(ctx.repo)
+        ctx.ob(f"{oc.key}:{construct}", oc.loc(), text, False, detail)
+        return None
+
+
 def r2_lock_closure(ctx):
     repo = ctx.repo
     oc = A.function_class(repo)
-    lock = A.lock_method(repo)
+    lock = _mechanism_or_violation(ctx, A.lock_method, "no-lock-method", "some method raises the lock flag", "no method ever sets `_locked = True`: ancestors of a built child are never locked and drift from it silently")
+    if lock is None:
+        return
     build = A.build_method(repo)
     ctx.touch(lock, build)
     # read closure: the effective table recurses through mixins
@@ -205,7 +220,9 @@ def _parent_walkers(ctx, oc, lock):
 def r3_linkback(ctx):
     repo = ctx.repo
     oc = A.function_class(repo)
-    upd = A.update_method(repo)
+    upd = _mechanism_or_violation(ctx, A.update_method, "no-update-method", "some method rebuilds a function that is already in use when it changes", "no method rebuilds an already built function (`if self._compiled: self.compile()`): changes made after first use are ignored")
+    if upd is None:
+        return
     ctx.touch(upd)
     # writer: children.append(self) under the linkback flag, for every mixin that is added
     writers = []
@@ -222,7 +239,8 @@ def r3_linkback(ctx):
                 and dotted(n.args[0]) == rv
             ):
                 writers.append((m, n))
-    ctx.require(writers, "no `<parent>.children.append(self)` site found")
+    if not writers:
+        ctx.ob(f"{oc.key}:no-children-writer", oc.loc(), "a derivation created with linkback records the child in its parents' `children`", False, "nothing ever appends to `children`: linkback derivations are never registered with their ancestors, so later changes to the ancestor do not show up in the child")
     for m, call in writers:
         ctx.touch(m)
         rv = recv_name(m)
@@ -292,8 +310,13 @@ FRESH_CALLS = ("copy",)
 def r4_child_writes_nothing_of_parent(ctx):
     repo = ctx.repo
     oc = A.function_class(repo)
-    lock = A.lock_method(repo)
-    upd = A.update_method(repo)
+    try:
+        lock = A.lock_method(repo)
+        upd = A.update_method(repo)
+    except AnalysisError:
+        ctx.note("lock / update method missing: reported by R2 / R3")
+        ctx.ob(f"{oc.key}:r4-skipped", oc.loc(), "ownership inventory needs the lock and update methods (their absence is reported by R2 / R3)", True)
+        return
     walkers = _parent_walkers(ctx, oc, lock)
     allowed_calls = {lock.name, upd.name} | {w.name for w in walkers}
     mutating_api = set()
@@ -432,7 +455,9 @@ def _reaches_after(ctx, oc, m, stmt, target, depth=0):
 
 def r5_every_mutator_rebuilds(ctx, rule_note=""):
     oc = A.function_class(ctx.repo)
-    upd = A.update_method(ctx.repo)
+    upd = _mechanism_or_violation(ctx, A.update_method, "no-update-method", "some method rebuilds a function that is already in use when it changes", "no method rebuilds an already built function (`if self._compiled: self.compile()`): registrations made after first use are ignored")
+    if upd is None:
+        return
     writers = method_table_writers(ctx)
     ctx.require(writers, "no method-table writer found")
     seen = set()
